@@ -1,25 +1,44 @@
 """facts_C17.py -- source facts for property C17 (keepalive) -> coq/Gen/FactsC17.v.
 
-Translated from /repo with the Python `ast` only (grpclib is never imported), fail-closed: any shape
-outside the few recognised ones raises Unsupported and tools/regen.py removes the stale output, so
-that exactly the C17 theorems stop compiling.
+Fail-closed (anything not understood raises Unsupported; tools/regen.py then removes the stale output so
+that exactly the C17 theorems stop compiling), but the facts are about MEANING, not spelling:
 
-What is emitted
-  * grpclib/config.py: for the five keepalive fields of `Configuration` the dataclass default, the
-    per-role defaults (`server-default`, `client-default`, `test-default`) and the validator
-    expression; the comparison each primitive validator performs (`_positive`: value <= 0 is
-    rejected, ...); the key each `__for_<role>__` method passes to `_with_defaults`.
-    Values of the time-valued fields are given in ticks of 2^-20 s and must be integral there.
-  * grpclib/protocol.py: `Connection._is_need_send_ping` as a list of guards over a tiny expression
-    language (interpreted by Model/Keepalive.v: theorem C17_need_ping_is_source), and the bodies of
-    `initialize`, `_ping`, `close`, `ping_ack_process`, `headers_send_process`,
-    `data_send_process`, `EventsProcessor.process_ping_ack_received` as a small statement IR
-    (compared with the program the model was transcribed from: theorem C17_source_shape).
+  * grpclib/config.py is loaded as a stand-alone module (it imports only typing/dataclasses) and the
+    facts about VALUES are read off the objects: dataclass defaults, what `Configuration().__for_<role>__()`
+    resolves to, what the validator combinators do (probed with recording callables).  Only the comparison
+    inside a primitive validator (`value <= 0` rejects) is read from the syntax, whatever the function
+    and its parameters are called.
+  * grpclib/protocol.py: before anything is matched the method bodies are NORMALISED -- docstrings,
+    logging, asserts and annotations dropped; `cast(T, x)` -> x; a local bound once is replaced by its
+    value; `for v in (a, b): ...` unrolled; calls of private helpers of the same class (`self._x(...)`,
+    `await self._x(...)`) replaced by their bodies; attributes are named by ROLE, not by spelling:
+        H2 / TRANSPORT / CONFIG   the constructor arguments of Connection (by position / `config=`)
+        PING_TIMER, PING_CALLBACK the attribute assigned `<loop>.call_later(CONFIG._keepalive_time, self.<m>)`
+                                  and that method <m>
+        CLOSE_TIMER               the attribute assigned `<loop>.call_later(CONFIG._keepalive_timeout, self.close)`
+        NEED_PING                 the argument-less private predicate tested by PING_CALLBACK
+    What is emitted:
+      - NEED_PING as ONE boolean expression tree (symbolic execution of the body: early returns,
+        nested / merged conditions, locals, a helper looping over the streams), which
+        Model/Keepalive.v interprets (theorem C17_need_ping_is_source);
+      - the keepalive EFFECTS of initialize / PING_CALLBACK / close / ping_ack_process /
+        headers_send_process / data_send_process and of the handler PingAckReceived is dispatched to,
+        as a small statement tree in which runs of independent simple effects are sorted
+        (theorem C17_source_shape);
+      - path facts: after every `H2.send_data(...)` / `H2.send_headers(...)` in Stream.send_data /
+        send_headers / send_request the counter-reset hook is reached on EVERY path with no await, no
+        return, no further send in between (theorem C17_every_frame_resets);
+      - every write to the four keepalive variables anywhere in grpclib/, attributed to the entry points
+        (private helpers folded into their callers) (theorem C17_keepalive_writers).
 """
 import ast
+import copy
+import glob
+import importlib.util
+import os
 from fractions import Fraction
 
-from extract_facts import Unsupported, parse, zs, z, class_node, func_node, module_assigns
+from extract_facts import Unsupported, parse, zs, z, class_node
 
 TICKS = 2 ** 20
 
@@ -30,456 +49,795 @@ KEEPALIVE_FIELDS = [
     ('_http2_max_pings_without_data', 'int'),
     ('_http2_min_sent_ping_interval_without_data', 'sec'),
 ]
+CFG_NAMES = {n for n, _ in KEEPALIVE_FIELDS}
 
 
 def u(node):
     return ast.unparse(node)
 
 
-# ------------------------------------------------------------------------------------------------
-# config.py
+# ================================================================================================
+# config.py: values from the module object
 
-def cval(node, kind):
-    """a default value as a Coq `cval`"""
-    if isinstance(node, ast.Call) and u(node) == 'cast(None, _DEFAULT)':
-        return 'CRoleDefault'
-    if not isinstance(node, ast.Constant):
-        raise Unsupported('default value ' + u(node))
-    v = node.value
+def load_config(repo):
+    path = os.path.join(repo, 'grpclib', 'config.py')
+    spec = importlib.util.spec_from_file_location('_facts_c17_config_%d' % (abs(hash(path)) % 10 ** 8), path)
+    mod = importlib.util.module_from_spec(spec)
+    try:
+        spec.loader.exec_module(mod)
+    except Exception as e:
+        raise Unsupported('grpclib/config.py cannot be loaded stand-alone: %r' % (e,))
+    return mod
+
+
+def cval_of(v, kind):
     if v is None:
         return 'CNone'
     if isinstance(v, bool):
         if kind != 'bool':
-            raise Unsupported('bool default for a %s field' % kind)
+            raise Unsupported('bool value for a %s field' % kind)
         return 'CBool %s' % str(v).lower()
     if isinstance(v, (int, float)):
         if kind == 'sec':
             t = Fraction(v) * TICKS
             if t.denominator != 1:
-                raise Unsupported('default %r is not a multiple of 2^-20 s' % v)
+                raise Unsupported('value %r is not a multiple of 2^-20 s' % (v,))
             return 'CSec %s' % z(int(t))
         if kind == 'int' and isinstance(v, int):
             return 'CInt %s' % z(v)
-    raise Unsupported('default value %r for a %s field' % (v, kind))
+    raise Unsupported('value %r for a %s field' % (v, kind))
 
 
-def validator(node):
-    """validator expression -> Coq `vdt`"""
+CMP = {ast.Eq: 'OpEq', ast.NotEq: 'OpNe', ast.Lt: 'OpLt', ast.LtE: 'OpLe', ast.Gt: 'OpGt',
+       ast.GtE: 'OpGe'}
+NEG = {'OpEq': 'OpNe', 'OpNe': 'OpEq', 'OpLt': 'OpGe', 'OpGe': 'OpLt', 'OpLe': 'OpGt', 'OpGt': 'OpLe'}
+FLIP = {'OpEq': 'OpEq', 'OpNe': 'OpNe', 'OpLt': 'OpGt', 'OpGt': 'OpLt', 'OpLe': 'OpGe', 'OpGe': 'OpLe'}
+
+
+def module_func(tree, name):
+    for n in tree.body:
+        if isinstance(n, ast.FunctionDef) and n.name == name:
+            return n
+    raise Unsupported('module function ' + name)
+
+
+def strip_doc(body):
+    return [s for s in body if not (isinstance(s, ast.Expr) and isinstance(s.value, ast.Constant)
+                                    and isinstance(s.value.value, str))]
+
+
+def primitive_rejects(tree, name):
+    """`def f(<n>, <v>): if <v> <op> <int>: raise ValueError(..)` (or `if not <v> <op> <int>`), whatever
+    f, n, v are called -> (op, int) describing the REJECTED values"""
+    fn = module_func(tree, name)
+    if len(fn.args.args) != 2:
+        raise Unsupported(name + ': signature')
+    v = fn.args.args[1].arg
+    body = strip_doc(fn.body)
+    if len(body) != 1 or not (isinstance(body[0], ast.If) and not body[0].orelse
+                              and len(body[0].body) == 1 and isinstance(body[0].body[0], ast.Raise)):
+        raise Unsupported(name + ': body')
+    exc = body[0].body[0].exc
+    if not (isinstance(exc, ast.Call) and u(exc.func) == 'ValueError'):
+        raise Unsupported(name + ': raises something else than ValueError')
+    t, neg = body[0].test, False
+    while isinstance(t, ast.UnaryOp) and isinstance(t.op, ast.Not):
+        t, neg = t.operand, not neg
+    if not (isinstance(t, ast.Compare) and len(t.ops) == 1 and type(t.ops[0]) in CMP):
+        raise Unsupported(name + ': test ' + u(t))
+    op = CMP[type(t.ops[0])]
+    a, b = t.left, t.comparators[0]
+    if isinstance(a, ast.Constant) and isinstance(b, ast.Name):
+        a, b, op = b, a, FLIP[op]
+    if not (isinstance(a, ast.Name) and a.id == v and isinstance(b, ast.Constant)
+            and isinstance(b.value, int) and not isinstance(b.value, bool)):
+        raise Unsupported(name + ': test ' + u(t))
+    if neg:
+        op = NEG[op]
+    return op, b.value
+
+
+class Rec:
+    def __init__(self, log, tag):
+        self.log, self.tag = log, tag
+
+    def __call__(self, name, value):
+        self.log.append((self.tag, name, value))
+
+
+def classify_combinator(fn):
+    """what a validator-combinator of config.py does, found out by calling it"""
+    log = []
+    try:
+        p = fn(Rec(log, 'a'))
+        p('n', None)
+        none_skipped = not log
+        p('n', 5)
+        if none_skipped and log == [('a', 'n', 5)]:
+            return 'optional'
+    except Exception:
+        pass
+    log = []
+    try:
+        p = fn(Rec(log, 'a'), Rec(log, 'b'))
+        p('n', 5)
+        if log == [('a', 'n', 5), ('b', 'n', 5)]:
+            log2 = []
+            fn(Rec(log2, 'a'))('n', None)
+            if log2 == [('a', 'n', None)]:
+                return 'chain'
+    except Exception:
+        pass
+    try:
+        p = fn(int, float)
+        p('n', 1)
+        p('n', 1.5)
+        ok = False
+        try:
+            p('n', 'x')
+        except TypeError:
+            ok = True
+        try:
+            fn(int)('n', 1.5)
+            ok = False
+        except TypeError:
+            pass
+        try:
+            p('n', None)
+            ok = False
+        except TypeError:
+            pass
+        if ok:
+            return 'of_type'
+    except Exception:
+        pass
+    raise Unsupported('validator combinator %r does something unknown' % getattr(fn, '__name__', fn))
+
+
+def validator(node, mod, tree, prim):
+    """the `validate` expression of a field -> Coq `vdt`; the callees are classified by what they do"""
     if isinstance(node, ast.Name):
-        if node.id == '_positive':
+        op, k = primitive_rejects(tree, node.id)
+        if (op, k) == ('OpLe', 0):
+            prim['positive'] = (op, k)
             return 'VPositive'
-        if node.id == '_non_negative':
+        if (op, k) == ('OpLt', 0):
+            prim['non_negative'] = (op, k)
             return 'VNonNegative'
-        raise Unsupported('validator ' + node.id)
+        raise Unsupported('primitive validator %s rejects `value %s %d`' % (node.id, op, k))
     if isinstance(node, ast.Call) and isinstance(node.func, ast.Name) and not node.keywords:
-        f = node.func.id
-        if f == '_optional' and len(node.args) == 1:
-            return 'VOptional (%s)' % validator(node.args[0])
-        if f == '_chain':
-            return 'VChain [%s]' % '; '.join(validator(a) for a in node.args)
-        if f == '_of_type':
+        kind = classify_combinator(getattr(mod, node.func.id))
+        if kind == 'optional' and len(node.args) == 1:
+            return 'VOptional (%s)' % validator(node.args[0], mod, tree, prim)
+        if kind == 'chain':
+            return 'VChain [%s]' % '; '.join(validator(a, mod, tree, prim) for a in node.args)
+        if kind == 'of_type':
             tys = []
             for a in node.args:
                 if not (isinstance(a, ast.Name) and a.id in ('int', 'float', 'bool')):
-                    raise Unsupported('_of_type argument ' + u(a))
+                    raise Unsupported('type argument ' + u(a))
                 tys.append(a.id)
             return 'VOfType [%s]' % '; '.join(zs(t) for t in tys)
     raise Unsupported('validator ' + u(node))
 
 
-CMP = {ast.Eq: 'OpEq', ast.NotEq: 'OpNe', ast.Lt: 'OpLt', ast.LtE: 'OpLe', ast.Gt: 'OpGt',
-       ast.GtE: 'OpGe'}
-
-
-def primitive_test(tree, name):
-    """`def name(name_, value): if value <op> <int>: raise ValueError(...)` -> (op, int): rejected"""
-    fn = func_node(tree, name)
-    if [a.arg for a in fn.args.args] != ['name', 'value'] or len(fn.body) != 1:
-        raise Unsupported(name + ' signature/body')
-    st = fn.body[0]
-    if not (isinstance(st, ast.If) and not st.orelse and len(st.body) == 1
-            and isinstance(st.body[0], ast.Raise)
-            and isinstance(st.body[0].exc, ast.Call)
-            and u(st.body[0].exc.func) == 'ValueError'):
-        raise Unsupported(name + ' body')
-    t = st.test
-    if not (isinstance(t, ast.Compare) and len(t.ops) == 1 and isinstance(t.left, ast.Name)
-            and t.left.id == 'value' and isinstance(t.comparators[0], ast.Constant)
-            and isinstance(t.comparators[0].value, int) and type(t.ops[0]) in CMP):
-        raise Unsupported(name + ' test ' + u(t))
-    return CMP[type(t.ops[0])], t.comparators[0].value
-
-
-def expect_src(tree, name, lines, cls=None):
-    """the function body must be literally these statements (docstrings skipped)"""
-    fn = func_node(tree, name, cls)
-    body = [s for s in fn.body
-            if not (isinstance(s, ast.Expr) and isinstance(s.value, ast.Constant))]
-    got = [u(s) for s in body]
-    if got != lines:
-        raise Unsupported('%s: unexpected body %r' % (name, got))
-
-
 def config_facts(repo, add):
+    import dataclasses
+    mod = load_config(repo)
     tree = parse(repo, 'grpclib/config.py')
-    cls = class_node(tree, 'Configuration')
-    decos = [u(d) for d in cls.decorator_list]
-    if decos != ['dataclass(frozen=True)']:
-        raise Unsupported('Configuration decorators %r' % decos)
-    fields = {}
-    for st in cls.body:
-        if isinstance(st, ast.AnnAssign) and isinstance(st.target, ast.Name):
-            fields[st.target.id] = st
-    add('(* grpclib/config.py: Configuration -- (name, default, server-default, client-default, '
-        'test-default, validator) *)')
+    Conf = getattr(mod, 'Configuration', None)
+    if Conf is None or not dataclasses.is_dataclass(Conf):
+        raise Unsupported('Configuration is not a dataclass')
+    fields = {f.name: f for f in dataclasses.fields(Conf)}
+    try:
+        base = Conf()
+        roles = {r: getattr(base, '__for_%s__' % r)() for r in ('server', 'client', 'test')}
+    except Exception as e:
+        raise Unsupported('Configuration() / __for_<role>__: %r' % (e,))
+    # validation really runs when a Configuration is made, and not on values left at their default
+    try:
+        Conf(_keepalive_timeout=-1)
+        raise Unsupported('Configuration does not validate at construction')
+    except ValueError:
+        pass
+    # the `validate` expressions, from the class body
+    meta_src = {}
+    for st in class_node(tree, 'Configuration').body:
+        if isinstance(st, ast.AnnAssign) and isinstance(st.target, ast.Name) and \
+                isinstance(st.value, ast.Call):
+            for kw in st.value.keywords:
+                if kw.arg == 'metadata' and isinstance(kw.value, ast.Dict):
+                    for k, v in zip(kw.value.keys, kw.value.values):
+                        if isinstance(k, ast.Constant) and k.value == 'validate':
+                            meta_src[st.target.id] = v
+    add('(* grpclib/config.py: Configuration -- (name, default, server, client, test value when the default is '
+        'role dependent, validator); values read off the loaded module *)')
     add('Inductive cval := CNone | CRoleDefault | CBool (b : bool) | CInt (n : Z) | CSec (ticks : Z).')
     add('Inductive cmpop := OpEq | OpNe | OpLt | OpLe | OpGt | OpGe.')
     add('Inductive vdt := VOptional (v : vdt) | VChain (vs : list vdt) | VOfType (tys : list (list Z))')
     add('  | VPositive | VNonNegative.')
     add('Record cfield := mkField { f_name : list Z; f_default : cval; f_server : option cval;')
     add('  f_client : option cval; f_test : option cval; f_validate : option vdt }.')
-    rows = []
+    rows, prim = [], {}
     for name, kind in KEEPALIVE_FIELDS:
         if name not in fields:
             raise Unsupported('Configuration has no field ' + name)
-        call = fields[name].value
-        if not (isinstance(call, ast.Call) and u(call.func) == 'field' and not call.args):
-            raise Unsupported('field() of ' + name)
-        kw = {k.arg: k.value for k in call.keywords}
-        if set(kw) - {'default', 'metadata'} or 'default' not in kw:
-            raise Unsupported('field() keywords of ' + name)
-        default = cval(kw['default'], kind)
-        meta = {}
-        if 'metadata' in kw:
-            m = kw['metadata']
-            if not isinstance(m, ast.Dict):
-                raise Unsupported('metadata of ' + name)
-            for k, v in zip(m.keys, m.values):
-                if not (isinstance(k, ast.Constant) and isinstance(k.value, str)):
-                    raise Unsupported('metadata key of ' + name)
-                meta[k.value] = v
-        if set(meta) - {'validate', 'server-default', 'client-default', 'test-default', 'default'}:
-            raise Unsupported('metadata keys of %s: %r' % (name, sorted(meta)))
-        if default == 'CRoleDefault' and not {'server-default', 'client-default'} <= set(meta) \
-                and 'default' not in meta:
-            raise Unsupported(name + ': role default without per-role values')
-
-        def role(key):
-            return 'Some (%s)' % cval(meta[key], kind) if key in meta else 'None'
-        val = 'Some (%s)' % validator(meta['validate']) if 'validate' in meta else 'None'
-        rows.append('  mkField %s (%s) (%s) (%s) (%s) (%s)' % (
-            zs(name), default, role('server-default'), role('client-default'),
-            role('test-default'), val))
+        d = fields[name].default
+        role_dep = not (d is None or isinstance(d, (bool, int, float)))
+        if role_dep:
+            default = 'CRoleDefault'
+            rv = ['Some (%s)' % cval_of(getattr(roles[r], name), kind) for r in ('server', 'client', 'test')]
+        else:
+            default = cval_of(d, kind)
+            for r in roles:
+                if getattr(roles[r], name) != d:
+                    raise Unsupported('%s: role %s changes a plain default' % (name, r))
+            rv = ['None', 'None', 'None']
+        has_validate = fields[name].metadata.get('validate') is not None
+        if has_validate != (name in meta_src):
+            raise Unsupported(name + ': validate metadata not found in the class body')
+        val = 'Some (%s)' % validator(meta_src[name], mod, tree, prim) if has_validate else 'None'
+        rows.append('  mkField %s (%s) (%s) (%s) (%s) (%s)' % (zs(name), default, rv[0], rv[1], rv[2], val))
     add('Definition keepalive_fields : list cfield := [\n%s\n].' % ';\n'.join(rows))
-    # primitive validators: the comparison that REJECTS a value
-    for fname, coq in (('_positive', 'positive_rejects'), ('_non_negative', 'non_negative_rejects')):
-        op, k = primitive_test(tree, fname)
-        add('Definition %s : cmpop * Z := (%s, %s).   (* %s: `if value %s %d: raise ValueError` *)'
-            % (coq, op, z(k), fname, op, k))
-    # combinators and plumbing: literal shapes
-    expect_src(tree, '_optional', [
-        'def proc(name: str, value: Any) -> None:\n    if value is not None:\n        validator(name, value)',
-        'return proc'])
-    expect_src(tree, '_chain', [
-        'def proc(name: str, value: Any) -> None:\n    for validator in validators:\n        validator(name, value)',
-        'return proc'])
-    fn = func_node(tree, '_of_type')
-    inner = [s for s in fn.body if isinstance(s, ast.FunctionDef)]
-    if len(inner) != 1 or not isinstance(inner[0].body[0], ast.If) or \
-            u(inner[0].body[0].test) != 'not isinstance(value, types)' or \
-            not isinstance(inner[0].body[0].body[-1], ast.Raise):
-        raise Unsupported('_of_type body')
-    expect_src(tree, '_validate', [
-        "for f in fields(config):\n    validate_fn = f.metadata.get('validate')\n"
-        "    if validate_fn is not None:\n        value = getattr(config, f.name)\n"
-        "        if value is not _DEFAULT:\n            validate_fn(f.name, value)"])
-    expect_src(tree, '__post_init__', ['_validate(self)'], cls='Configuration')
-    expect_src(tree, '_with_defaults', [
-        'assert is_dataclass(cls)', 'defaults = {}',
-        "for f in fields(cls):\n    if getattr(cls, f.name) is _DEFAULT:\n"
-        "        if metadata_key in f.metadata:\n            default = f.metadata[metadata_key]\n"
-        "        else:\n            default = f.metadata['default']\n"
-        "        defaults[f.name] = default",
-        'return replace(cls, **defaults)'])
-    for meth, key in (('__for_server__', 'server-default'), ('__for_client__', 'client-default'),
-                      ('__for_test__', 'test-default')):
-        expect_src(tree, meth, ["return _with_defaults(self, '%s')" % key], cls='Configuration')
-    add('(* validation runs in __post_init__ on every field whose value is not _DEFAULT; '
-        '__for_server__/__for_client__/__for_test__ fill role defaults from the metadata keys '
-        "'server-default'/'client-default'/'test-default' (shapes checked by the translator) *)")
-    add('Definition role_keys_checked : bool := true.')
+    for key, coq in (('positive', 'positive_rejects'), ('non_negative', 'non_negative_rejects')):
+        op, k = prim.get(key, {'positive': ('OpLe', 0), 'non_negative': ('OpLt', 0)}[key])
+        add('Definition %s : cmpop * Z := (%s, %s).   (* the values this primitive validator rejects *)'
+            % (coq, op, z(k)))
     add('')
 
 
-# ------------------------------------------------------------------------------------------------
-# protocol.py: expressions, conditions, statements
+# ================================================================================================
+# protocol.py: normalisation
 
-CFG_NAMES = {n for n, _ in KEEPALIVE_FIELDS}
-ATTRS = {'ping_count_in_sequence', 'last_ping_sent', 'last_data_sent', '_ping_handle',
-         '_close_by_ping_handler'}
-ANY_OPEN = 'any((s.open for s in self._connection.streams.values()))'
+def methods_of(cls):
+    return {n.name: n for n in cls.body if isinstance(n, (ast.FunctionDef, ast.AsyncFunctionDef))}
 
 
-def expr(n):
+def init_roles(cls, positional, keyword=()):
+    """attributes assigned directly from constructor parameters: {role: attribute name}"""
+    init = methods_of(cls).get('__init__')
+    if init is None:
+        raise Unsupported(cls.name + '.__init__')
+    params = [a.arg for a in init.args.args][1:]
+    kwonly = [a.arg for a in init.args.kwonlyargs]
+    want = {}
+    for i, role in enumerate(positional):
+        if i >= len(params):
+            raise Unsupported('%s.__init__ has fewer positional parameters than expected' % cls.name)
+        want[params[i]] = role
+    for k, role in keyword:
+        if k not in kwonly and k not in params:
+            raise Unsupported('%s.__init__ has no parameter %s' % (cls.name, k))
+        want[k] = role
+    out = {}
+    for st in ast.walk(init):
+        if isinstance(st, ast.Assign) and len(st.targets) == 1 and isinstance(st.value, ast.Name) \
+                and st.value.id in want and isinstance(st.targets[0], ast.Attribute) \
+                and u(st.targets[0].value) == 'self':
+            out[want[st.value.id]] = st.targets[0].attr
+    for role in want.values():
+        if role not in out:
+            raise Unsupported('%s.__init__ does not store its %s argument' % (cls.name, role))
+    return out
+
+
+class Subst(ast.NodeTransformer):
+    def __init__(self, env):
+        self.env = env
+
+    def visit_Name(self, node):
+        if isinstance(node.ctx, ast.Load) and node.id in self.env:
+            return copy.deepcopy(self.env[node.id])
+        return node
+
+
+def subst(node, env):
+    return Subst(env).visit(copy.deepcopy(node)) if env else node
+
+
+class StripCast(ast.NodeTransformer):
+    def visit_Call(self, node):
+        self.generic_visit(node)
+        if u(node.func) in ('cast', 'typing.cast') and len(node.args) == 2 and not node.keywords:
+            return node.args[1]
+        return node
+
+
+def has_await(node):
+    return any(isinstance(n, (ast.Await, ast.Yield, ast.YieldFrom)) for n in ast.walk(node))
+
+
+def self_call(node):
+    """`self._x(...)` or `await self._x(...)` -> (name, Call)"""
+    if isinstance(node, ast.Await):
+        node = node.value
+    if isinstance(node, ast.Call) and isinstance(node.func, ast.Attribute) \
+            and u(node.func.value) == 'self':
+        return node.func.attr, node
+    return None, None
+
+
+def is_private(name):
+    return name.startswith('_') and not name.startswith('__')
+
+
+def noise(st):
+    if isinstance(st, ast.Expr) and isinstance(st.value, ast.Constant):
+        return True
+    if isinstance(st, ast.Expr) and isinstance(st.value, ast.Call) and u(st.value.func).split('.')[0] in (
+            'log', 'logger', 'logging', 'warnings'):
+        return True
+    return isinstance(st, (ast.Assert, ast.Pass))
+
+
+def normalise(fn, methods, depth=0, callbacks=()):
+    """statement list of fn: noise dropped, casts stripped, private helpers of the class inlined
+    (statement-level calls), tuple loops unrolled, once-bound locals substituted"""
+    if depth > 6:
+        raise Unsupported('helper recursion in ' + fn.name)
+    body = [StripCast().visit(copy.deepcopy(s)) for s in fn.body]
+    return norm_block(body, methods, depth, callbacks, fn)
+
+
+def assigned_names(stmts):
+    cnt = {}
+    for st in stmts:
+        for n in ast.walk(st):
+            if isinstance(n, ast.Name) and isinstance(n.ctx, (ast.Store, ast.Del)):
+                cnt[n.id] = cnt.get(n.id, 0) + 1
+            elif isinstance(n, ast.arg):
+                cnt[n.arg] = cnt.get(n.arg, 0) + 2
+    return cnt
+
+
+def norm_block(stmts, methods, depth, callbacks, fn, env=None, counts=None):
+    env = dict(env or {})
+    if counts is None:
+        counts = assigned_names(stmts)
+    out = []
+    for st in stmts:
+        if noise(st):
+            continue
+        st = subst(st, env)
+        # a local bound exactly once to an await-free expression: replace it by its value
+        if isinstance(st, (ast.Assign, ast.AnnAssign)) and not has_await(st):
+            tgt = st.targets[0] if isinstance(st, ast.Assign) and len(st.targets) == 1 else \
+                (st.target if isinstance(st, ast.AnnAssign) else None)
+            if isinstance(tgt, ast.Name) and st.value is not None and counts.get(tgt.id, 0) == 1:
+                env[tgt.id] = st.value
+                continue
+        # helper call as a statement
+        if isinstance(st, ast.Expr):
+            name, call = self_call(st.value)
+            if name and is_private(name) and name in methods and name not in callbacks:
+                helper = methods[name]
+                if isinstance(st.value, ast.Await) != isinstance(helper, ast.AsyncFunctionDef):
+                    raise Unsupported('helper %s: await / coroutine mismatch' % name)
+                hb = strip_doc(helper.body)
+                if hb and isinstance(hb[-1], ast.Return) and hb[-1].value is None:
+                    hb = hb[:-1]
+                if any(isinstance(n, ast.Return) for s in hb for n in ast.walk(s)):
+                    raise Unsupported('helper %s returns early; cannot be inlined as a statement' % name)
+                params = [a.arg for a in helper.args.args][1:]
+                if len(call.args) > len(params) or helper.args.vararg or helper.args.kwarg:
+                    raise Unsupported('helper %s: arguments' % name)
+                henv = {p: a for p, a in zip(params, call.args)}
+                for kw in call.keywords:
+                    henv[kw.arg] = kw.value
+                hcopy = copy.deepcopy(helper)
+                hcopy.body = [subst(s, henv) for s in hb]
+                out += normalise(hcopy, methods, depth + 1, callbacks)
+                continue
+        if isinstance(st, ast.For) and isinstance(st.iter, (ast.Tuple, ast.List)) and \
+                isinstance(st.target, ast.Name) and not st.orelse:
+            for e in st.iter.elts:
+                out += norm_block([subst(s, {st.target.id: e}) for s in st.body], methods, depth,
+                                  callbacks, fn, env, counts)
+            continue
+        if isinstance(st, ast.If):
+            st = copy.copy(st)
+            st.body = norm_block(st.body, methods, depth, callbacks, fn, env, counts)
+            st.orelse = norm_block(st.orelse, methods, depth, callbacks, fn, env, counts)
+            if not st.body and not st.orelse:
+                continue
+        elif isinstance(st, (ast.While, ast.For, ast.AsyncFor, ast.With, ast.AsyncWith)):
+            st = copy.copy(st)
+            st.body = norm_block(st.body, methods, depth, callbacks, fn, env, counts)
+            if getattr(st, 'orelse', None):
+                st.orelse = norm_block(st.orelse, methods, depth, callbacks, fn, env, counts)
+        elif isinstance(st, ast.Try):
+            st = copy.copy(st)
+            st.body = norm_block(st.body, methods, depth, callbacks, fn, env, counts)
+            st.orelse = norm_block(st.orelse, methods, depth, callbacks, fn, env, counts)
+            st.finalbody = norm_block(st.finalbody, methods, depth, callbacks, fn, env, counts)
+            hs = []
+            for h in st.handlers:
+                h = copy.copy(h)
+                h.body = norm_block(h.body, methods, depth, callbacks, fn, env, counts)
+                hs.append(h)
+            st.handlers = hs
+        out.append(st)
+    return out
+
+
+# ---- roles of Connection
+
+class Roles:
+    pass
+
+
+def is_call_later(v):
+    return isinstance(v, ast.Call) and isinstance(v.func, ast.Attribute) and v.func.attr == 'call_later' \
+        and len(v.args) == 2 and not v.keywords
+
+
+def connection_roles(cls):
+    R = Roles()
+    r = init_roles(cls, ['H2', 'TRANSPORT'], [('config', 'CONFIG')])
+    R.h2, R.transport, R.config = r['H2'], r['TRANSPORT'], r['CONFIG']
+    R.methods = methods_of(cls)
+    R.ping_timer = R.close_timer = R.ping_cb = None
+    for fn in R.methods.values():
+        for st in ast.walk(fn):
+            if isinstance(st, ast.Assign) and len(st.targets) == 1 and is_call_later(StripCast().visit(
+                    copy.deepcopy(st.value))):
+                v = StripCast().visit(copy.deepcopy(st.value))
+                tgt = st.targets[0]
+                if not (isinstance(tgt, ast.Attribute) and u(tgt.value) == 'self'):
+                    raise Unsupported('timer stored in ' + u(tgt))
+                delay, cb = u(v.args[0]), u(v.args[1])
+                if delay == 'self.%s._keepalive_time' % R.config and cb.startswith('self.'):
+                    if R.ping_timer not in (None, tgt.attr) or R.ping_cb not in (None, cb[5:]):
+                        raise Unsupported('two different periodic keepalive timers')
+                    R.ping_timer, R.ping_cb = tgt.attr, cb[5:]
+                elif delay == 'self.%s._keepalive_timeout' % R.config and cb == 'self.close':
+                    if R.close_timer not in (None, tgt.attr):
+                        raise Unsupported('two different keepalive close timers')
+                    R.close_timer = tgt.attr
+                else:
+                    raise Unsupported('unknown timer: call_later(%s, %s)' % (delay, cb))
+    if None in (R.ping_timer, R.close_timer, R.ping_cb) or R.ping_timer == R.close_timer:
+        raise Unsupported('keepalive timers not found (periodic %r, close %r)' % (R.ping_timer, R.close_timer))
+    if R.ping_cb not in R.methods:
+        raise Unsupported('ping callback %s is not a method' % R.ping_cb)
+    # the need-ping predicate: the argument-less private method PING_CALLBACK tests
+    R.need = None
+    for st in normalise(R.methods[R.ping_cb], R.methods, callbacks=(R.ping_cb,)):
+        if isinstance(st, ast.If):
+            name, call = self_call(st.test)
+            if name and is_private(name) and name in R.methods and not call.args and not call.keywords:
+                R.need = name
+    if R.need is None:
+        raise Unsupported('the ping callback does not test a need-ping predicate')
+    R.attr_role = {R.ping_timer: 'PING_TIMER', R.close_timer: 'CLOSE_TIMER',
+                   'ping_count_in_sequence': 'ping_count_in_sequence', 'last_ping_sent': 'last_ping_sent',
+                   'last_data_sent': 'last_data_sent'}
+    return R
+
+
+# ---- expressions and conditions (after normalisation)
+
+def expr(n, R):
     s = u(n)
-    if s.startswith('self._config.') and s[len('self._config.'):] in CFG_NAMES:
-        return 'ECfg %s' % zs(s[len('self._config.'):])
-    if s.startswith('self.') and s[5:] in ATTRS:
-        return 'EAttr %s' % zs(s[5:])
+    pre = 'self.%s.' % R.config
+    if s.startswith(pre) and s[len(pre):] in CFG_NAMES:
+        return 'ECfg %s' % zs(s[len(pre):])
+    if s.startswith('self.') and s[5:] in R.attr_role:
+        return 'EAttr %s' % zs(R.attr_role[s[5:]])
     if s == 'time.monotonic()':
         return 'ENow'
-    if s == ANY_OPEN:
-        return 'EAnyOpen'
     if isinstance(n, ast.Constant):
         if n.value is None:
             return 'ENone'
         if isinstance(n.value, int) and not isinstance(n.value, bool):
             return 'EConst %s' % z(n.value)
     if isinstance(n, ast.BinOp) and isinstance(n.op, ast.Sub):
-        return 'ESub (%s) (%s)' % (expr(n.left), expr(n.right))
+        return 'ESub (%s) (%s)' % (expr(n.left, R), expr(n.right, R))
     if isinstance(n, ast.BinOp) and isinstance(n.op, ast.Add):
-        return 'EAdd (%s) (%s)' % (expr(n.left), expr(n.right))
+        return 'EAdd (%s) (%s)' % (expr(n.left, R), expr(n.right, R))
     raise Unsupported('expression ' + s)
 
 
-def cond(n):
+def any_open(n, R):
+    """any(<v>.open for <v> in self.H2.streams.values()) and spellings of it"""
+    streams = 'self.%s.streams.values()' % R.h2
+    if isinstance(n, ast.Call) and u(n.func) == 'any' and len(n.args) == 1 and \
+            isinstance(n.args[0], (ast.GeneratorExp, ast.ListComp)) and len(n.args[0].generators) == 1:
+        g = n.args[0].generators[0]
+        if u(g.iter) == streams and isinstance(g.target, ast.Name) and not g.ifs and \
+                u(n.args[0].elt) == g.target.id + '.open':
+            return True
+        if u(g.iter) == streams and isinstance(g.target, ast.Name) and len(g.ifs) == 1 and \
+                u(g.ifs[0]) == g.target.id + '.open' and u(n.args[0].elt) in ('True', g.target.id + '.open'):
+            return True
+    return False
+
+
+def cond(n, R, depth=0):
+    if isinstance(n, ast.Constant) and isinstance(n.value, bool):
+        return 'KConst %s' % str(n.value).lower()
     if isinstance(n, ast.UnaryOp) and isinstance(n.op, ast.Not):
-        return 'KNot (%s)' % cond(n.operand)
-    if isinstance(n, ast.BoolOp) and isinstance(n.op, ast.And):
-        out = cond(n.values[-1])
+        return 'KNot (%s)' % cond(n.operand, R, depth)
+    if isinstance(n, ast.BoolOp):
+        con = 'KAnd' if isinstance(n.op, ast.And) else 'KOr'
+        out = cond(n.values[-1], R, depth)
         for v in reversed(n.values[:-1]):
-            out = 'KAnd (%s) (%s)' % (cond(v), out)
+            out = '%s (%s) (%s)' % (con, cond(v, R, depth), out)
         return out
+    if isinstance(n, ast.IfExp):
+        return 'KIte (%s) (%s) (%s)' % (cond(n.test, R, depth), cond(n.body, R, depth), cond(n.orelse, R, depth))
     if isinstance(n, ast.Compare) and len(n.ops) == 1:
         a, b, op = n.left, n.comparators[0], n.ops[0]
         if type(op) in CMP:
-            return 'KCmp %s (%s) (%s)' % (CMP[type(op)], expr(a), expr(b))
+            return 'KCmp %s (%s) (%s)' % (CMP[type(op)], expr(a, R), expr(b, R))
         if isinstance(op, ast.IsNot) and u(b) == 'None':
-            return 'KIsNotNone (%s)' % expr(a)
+            return 'KIsNotNone (%s)' % expr(a, R)
         if isinstance(op, ast.Is) and u(b) == 'None':
-            return 'KNot (KIsNotNone (%s))' % expr(a)
+            return 'KNot (KIsNotNone (%s))' % expr(a, R)
         raise Unsupported('comparison ' + u(n))
-    if isinstance(n, ast.Call) and u(n.func) == 'hasattr' and len(n.args) == 2 \
-            and isinstance(n.args[1], ast.Constant):
-        return 'KHasAttr %s %s' % (zs(u(n.args[0])), zs(n.args[1].value))
-    return 'KTruth (%s)' % expr(n)
+    if isinstance(n, ast.Compare) and len(n.ops) == 2 and all(type(o) in CMP for o in n.ops):
+        # a < b < c
+        return 'KAnd (KCmp %s (%s) (%s)) (KCmp %s (%s) (%s))' % (
+            CMP[type(n.ops[0])], expr(n.left, R), expr(n.comparators[0], R),
+            CMP[type(n.ops[1])], expr(n.comparators[0], R), expr(n.comparators[1], R))
+    if any_open(n, R):
+        return 'KTruth (EAnyOpen)'
+    if isinstance(n, ast.Call) and u(n.func) == 'bool' and len(n.args) == 1:
+        return cond(n.args[0], R, depth)
+    name, call = self_call(n)
+    if name and is_private(name) and name in R.methods and not call.args and not call.keywords:
+        if name == R.need and depth > 0:
+            raise Unsupported('recursive predicate')
+        return bool_function(R.methods[name], R, depth + 1)       # a boolean helper: see through it
+    return 'KTruth (%s)' % expr(n, R)
 
 
-def is_ret_false(st):
-    return isinstance(st, ast.Return) and isinstance(st.value, ast.Constant) and st.value.value is False
+def streams_loop(st, rest, R):
+    """for <v> in self.H2.streams.values(): if <v>.open: return True   [then]  return False"""
+    if isinstance(st, ast.For) and u(st.iter) == 'self.%s.streams.values()' % R.h2 and \
+            isinstance(st.target, ast.Name) and not st.orelse and len(st.body) == 1:
+        b = st.body[0]
+        if isinstance(b, ast.If) and not b.orelse and u(b.test) == st.target.id + '.open' and \
+                len(b.body) == 1 and isinstance(b.body[0], ast.Return) and u(b.body[0].value) == 'True' \
+                and rest and isinstance(rest[0], ast.Return) and u(rest[0].value) == 'False':
+            return True
+    return False
 
 
-def need_ping_guards(fn):
-    body = list(fn.body)
-    if fn.args.args and [a.arg for a in fn.args.args] != ['self']:
-        raise Unsupported('_is_need_send_ping signature')
-    guards = []
-    if not (body and isinstance(body[0], ast.Assert)
-            and u(body[0].test) == 'self._config._keepalive_time is not None'):
-        raise Unsupported('_is_need_send_ping: leading assert')
-    body = body[1:]
-    if not (body and isinstance(body[-1], ast.Return) and isinstance(body[-1].value, ast.Constant)
-            and isinstance(body[-1].value.value, bool)):
-        raise Unsupported('_is_need_send_ping: final return')
-    final = body[-1].value.value
-    for st in body[:-1]:
-        if not (isinstance(st, ast.If) and not st.orelse and len(st.body) == 1):
-            raise Unsupported('_is_need_send_ping statement ' + u(st))
-        inner = st.body[0]
-        if is_ret_false(inner):
-            guards.append('GRetFalseIf (%s)' % cond(st.test))
-        elif isinstance(inner, ast.If) and not inner.orelse and len(inner.body) == 1 \
-                and is_ret_false(inner.body[0]):
-            guards.append('GNested (%s) (%s)' % (cond(st.test), cond(inner.test)))
-        else:
-            raise Unsupported('_is_need_send_ping statement ' + u(st))
-    return guards, final
+def bool_function(fn, R, depth=0):
+    """the boolean a predicate method returns, as ONE condition tree (symbolic execution)"""
+    if depth > 5:
+        raise Unsupported('predicate helpers nest too deep')
+    if [a.arg for a in fn.args.args] != ['self'] or isinstance(fn, ast.AsyncFunctionDef):
+        raise Unsupported('predicate %s: signature' % fn.name)
+    body = normalise(fn, R.methods, callbacks=(R.ping_cb,))
+
+    def run(stmts):
+        if not stmts:
+            raise Unsupported('predicate %s: a path falls off the end' % fn.name)
+        st, rest = stmts[0], stmts[1:]
+        if streams_loop(st, rest, R):
+            return 'KTruth (EAnyOpen)'
+        if isinstance(st, ast.Return):
+            if st.value is None:
+                raise Unsupported('predicate %s: bare return' % fn.name)
+            return cond(st.value, R, depth)
+        if isinstance(st, ast.If):
+            t = cond(st.test, R, depth)
+            return 'KIte (%s) (%s) (%s)' % (t, run(st.body + rest), run(st.orelse + rest))
+        raise Unsupported('predicate %s: statement %s' % (fn.name, u(st)[:80]))
+    return run(body)
 
 
-CALL_LATER = 'asyncio.get_event_loop().call_later'
+# ---- keepalive effects of a method
+
+RANK = {'SSendPing': 1, 'SFlush': 2, 'SCloseTransport': 3, 'SSet': 4, 'SInc': 5, 'SCancel': 6,
+        'SCall': 7, 'SArm': 8}
 
 
-def stmt(st):
-    s = u(st)
-    if isinstance(st, ast.Expr) and isinstance(st.value, ast.Constant) and isinstance(st.value.value, str):
-        return None                                      # docstring
-    if isinstance(st, ast.Assert):
-        return 'SAssert (%s)' % cond(st.test)
-    if isinstance(st, ast.Expr) and isinstance(st.value, ast.Call):
-        c = st.value
-        f = u(c.func)
-        if f.startswith('log.'):
-            return None                                  # logging has no effect on the state
-        if f == 'self._connection.ping' and len(c.args) == 1:
-            return 'SSendPing'
-        if f == 'self.flush' and not c.args:
-            return 'SFlush'
-        if f == 'self._transport.close' and not c.args:
-            return 'SCloseTransport'
-        if f in ('self._ping_handle.cancel', 'self._close_by_ping_handler.cancel') and not c.args:
-            return 'SCancel %s' % zs(f.split('.')[1])
-        if f == 'self.connection.ping_ack_process' and not c.args:
-            return 'SCall %s' % zs('ping_ack_process')
-        raise Unsupported('call statement ' + s)
-    if isinstance(st, ast.Delete):
-        return 'SDel %s' % zs(', '.join(u(t) for t in st.targets))
-    if isinstance(st, ast.AugAssign) and isinstance(st.op, ast.Add) and u(st.value) == '1' \
-            and u(st.target).startswith('self.') and u(st.target)[5:] in ATTRS:
-        return 'SInc %s' % zs(u(st.target)[5:])
-    if isinstance(st, ast.Assign) and len(st.targets) == 1:
-        tgt = u(st.targets[0])
-        if tgt == 'data':                                # the opaque ping payload
-            if u(st.value) != "struct.pack('!Q', int(time.monotonic() * 10 ** 6))":
-                raise Unsupported('ping payload ' + s)
-            return None
-        if tgt.startswith('self.') and tgt[5:] in ATTRS:
-            v = st.value
-            if isinstance(v, ast.Call) and u(v.func) == CALL_LATER and len(v.args) == 2 \
-                    and not v.keywords:
-                delay, cb = u(v.args[0]), u(v.args[1])
-                if not (delay.startswith('self._config.') and delay[13:] in CFG_NAMES
-                        and cb in ('self._ping', 'self.close')):
-                    raise Unsupported('call_later ' + s)
-                return 'SArm %s %s %s' % (zs(tgt[5:]), zs(delay[13:]), zs(cb[5:]))
-            return 'SSet %s (%s)' % (zs(tgt[5:]), expr(v))
-        raise Unsupported('assignment ' + s)
-    if isinstance(st, ast.If) and not st.orelse:
-        t = st.test
-        if isinstance(t, ast.Call) and u(t) == 'self._is_need_send_ping()':
-            c = 'KNeedPing'
-        else:
-            c = cond(t)
-        return 'SIf (%s) [%s]' % (c, '; '.join(block(st.body)))
-    raise Unsupported('statement ' + s)
+def effects(stmts, R):
+    """the keepalive-relevant statement tree: everything that does not touch a keepalive variable, the
+    wire or the transport is dropped; conditions that are not about keepalive state become KOpaque;
+    runs of simple effects are sorted (independent statements in any order are the same program)"""
+    out, run = [], []
 
-
-def block(stmts):
-    out = []
+    def flush():
+        run.sort(key=lambda s: (RANK[s.split(' ')[0]], s))
+        out.extend(run)
+        del run[:]
     for st in stmts:
-        r = stmt(st)
-        if r is not None:
-            out.append(r)
+        e = effect(st, R)
+        if e is None:
+            continue
+        if e.startswith('SIf'):
+            flush()
+            out.append(e)
+        else:
+            run.append(e)
+    flush()
     return out
 
 
-def protocol_facts(repo, add):
-    tree = parse(repo, 'grpclib/protocol.py')
-    add('(* grpclib/protocol.py: Connection keepalive code *)')
-    add('Inductive kexpr := ECfg (name : list Z) | EAttr (name : list Z) | ENow | EAnyOpen | ENone')
-    add('  | EConst (n : Z) | ESub (a b : kexpr) | EAdd (a b : kexpr).')
-    add('Inductive kcond := KNot (k : kcond) | KAnd (a b : kcond) | KCmp (op : cmpop) (a b : kexpr)')
-    add('  | KIsNotNone (e : kexpr) | KTruth (e : kexpr) | KHasAttr (obj attr : list Z) | KNeedPing.')
-    add('Inductive kguard := GRetFalseIf (k : kcond) | GNested (outer inner : kcond).')
-    add('Inductive kstmt := SAssert (k : kcond) | SSendPing | SFlush | SCloseTransport')
-    add('  | SCancel (handle : list Z) | SCall (meth : list Z) | SDel (what : list Z)')
-    add('  | SInc (attr : list Z) | SSet (attr : list Z) (e : kexpr)')
-    add('  | SArm (handle delay_cfg callback : list Z) | SIf (k : kcond) (body : list kstmt).')
-    guards, final = need_ping_guards(func_node(tree, '_is_need_send_ping', 'Connection'))
-    add('(* Connection._is_need_send_ping: guards in order, then the final return value *)')
-    add('Definition need_send_ping_src : list kguard * bool := ([\n  %s\n], %s).' % (
-        ';\n  '.join(guards), str(final).lower()))
-    for name, cls in (('initialize', 'Connection'), ('_ping', 'Connection'), ('close', 'Connection'),
-                      ('ping_ack_process', 'Connection'), ('headers_send_process', 'Connection'),
-                      ('data_send_process', 'Connection'),
-                      ('process_ping_ack_received', 'EventsProcessor')):
-        fn = func_node(tree, name, cls)
-        add('Definition src_%s : list kstmt := [\n  %s\n].' % (
-            name.strip('_'), ';\n  '.join(block(fn.body))))
-    # where the hooks are called from: data/headers sent, connection made, events table
-    conn_cls = class_node(tree, 'Connection')
-    defaults = {}
-    for st in conn_cls.body:
-        if isinstance(st, ast.AnnAssign) and isinstance(st.target, ast.Name) and st.value is not None:
-            defaults[st.target.id] = u(st.value)
-    want = {'last_ping_sent': 'None', 'ping_count_in_sequence': '0', '_ping_handle': 'None',
-            '_close_by_ping_handler': 'None', 'last_data_sent': 'None'}
-    for k, v in want.items():
-        if defaults.get(k) != v:
-            raise Unsupported('Connection.%s initial value %r' % (k, defaults.get(k)))
-    add('(* class-level initial values: last_ping_sent = None, ping_count_in_sequence = 0, both '
-        'handles None (checked by the translator) *)')
-    add('Definition initial_values_checked : bool := true.')
-    proto = func_node(tree, 'connection_made', 'H2Protocol')
-    calls = [u(s) for s in proto.body]
-    if 'self.connection.initialize()' not in calls:
-        raise Unsupported('H2Protocol.connection_made does not call initialize()')
-    src = open(repo + '/grpclib/protocol.py').read()
-    sites = {
-        'headers_send_process': src.count('self.connection.headers_send_process()'),
-        'data_send_process': src.count('self.connection.data_send_process()'),
-    }
-    add('(* call sites in Stream.send_request/send_headers/send_data *)')
-    add('Definition call_sites : list (list Z * Z) := [%s].' % '; '.join(
-        '(%s, %d)' % (zs(k), v) for k, v in sorted(sites.items())))
-    ep = func_node(tree, '__init__', 'EventsProcessor')
-    if 'PingAckReceived: self.process_ping_ack_received' not in u(ep):
-        raise Unsupported('PingAckReceived is not dispatched to process_ping_ack_received')
-    add('Definition ping_ack_dispatched : bool := true.')
-    add('')
+def relevant(node, R):
+    s = u(node)
+    keys = ['self.' + a for a in R.attr_role] + ['self.%s.ping' % R.h2, 'self.%s.close' % R.transport,
+                                                  'self.flush', 'call_later', 'ping_ack_process',
+                                                  'self.' + R.need, 'self.' + R.ping_cb]
+    return any(k in s for k in keys)
 
 
-SEND_SITES = [('send_data', 'self._h2_connection.send_data', 'self.connection.data_send_process'),
-              ('send_headers', 'self._h2_connection.send_headers', 'self.connection.headers_send_process'),
-              ('send_request', 'self._h2_connection.send_headers', 'self.connection.headers_send_process')]
-CONTROL = (ast.If, ast.While, ast.For, ast.AsyncFor, ast.Try, ast.With, ast.AsyncWith, ast.Return,
-           ast.Break, ast.Continue, ast.Raise)
+def effect(st, R):
+    s = u(st)
+    if isinstance(st, ast.Expr) and isinstance(st.value, ast.Call):
+        c = st.value
+        f = u(c.func)
+        if f == 'self.%s.ping' % R.h2:
+            return 'SSendPing'
+        if f == 'self.flush' and not c.args:
+            return 'SFlush'
+        if f == 'self.%s.close' % R.transport and not c.args:
+            return 'SCloseTransport'
+        for attr, role in ((R.ping_timer, 'PING_TIMER'), (R.close_timer, 'CLOSE_TIMER')):
+            if f == 'self.%s.cancel' % attr and not c.args:
+                return 'SCancel %s' % zs(role)
+        if f.endswith('.ping_ack_process') and not c.args:
+            return 'SCall %s' % zs('ping_ack_process')
+        if relevant(st, R):
+            raise Unsupported('call statement ' + s)
+        return None
+    if isinstance(st, ast.AugAssign):
+        t = u(st.target)
+        if t.startswith('self.') and t[5:] in R.attr_role:
+            if isinstance(st.op, ast.Add) and u(st.value) == '1':
+                return 'SInc %s' % zs(R.attr_role[t[5:]])
+            raise Unsupported('augmented assignment ' + s)
+        return None
+    if isinstance(st, (ast.Assign, ast.AnnAssign)):
+        tgts = st.targets if isinstance(st, ast.Assign) else [st.target]
+        if len(tgts) == 1 and isinstance(tgts[0], ast.Attribute) and u(tgts[0].value) == 'self' \
+                and tgts[0].attr in R.attr_role:
+            role, v = R.attr_role[tgts[0].attr], st.value
+            if is_call_later(v):
+                delay, cb = u(v.args[0]), u(v.args[1])
+                pre = 'self.%s.' % R.config
+                if not (delay.startswith(pre) and delay[len(pre):] in CFG_NAMES and cb.startswith('self.')):
+                    raise Unsupported('call_later ' + s)
+                cbn = 'PING_CALLBACK' if cb[5:] == R.ping_cb else cb[5:]
+                return 'SArm %s %s %s' % (zs(role), zs(delay[len(pre):]), zs(cbn))
+            return 'SSet %s (%s)' % (zs(role), expr(v, R))
+        if relevant(st, R) and not isinstance(tgts[0], ast.Name):
+            raise Unsupported('assignment ' + s)
+        return None
+    if isinstance(st, ast.If):
+        body, orelse = effects(st.body, R), effects(st.orelse, R)
+        if not body and not orelse:
+            if relevant(st.test, R) and 'self.' + R.need in u(st.test):
+                raise Unsupported('need-ping tested without effect')
+            return None
+        if orelse:
+            raise Unsupported('if/else around keepalive effects: ' + s[:80])
+        name, call = self_call(st.test)
+        if name == R.need:
+            c = 'KNeedPing'
+        else:
+            try:
+                c = cond(st.test, R)
+            except Unsupported:
+                if relevant(st.test, R):
+                    raise
+                c = 'KOpaque'           # a condition that is not about keepalive state
+        return 'SIf (%s) [%s]' % (c, '; '.join(body))
+    if isinstance(st, ast.Delete):
+        if any(isinstance(t, ast.Attribute) and t.attr in R.attr_role for t in st.targets):
+            raise Unsupported('del of a keepalive variable')
+        return None
+    if relevant(st, R):
+        raise Unsupported('statement ' + s[:100])
+    return None
 
 
-def is_call_stmt(st, name):
-    return isinstance(st, ast.Expr) and isinstance(st.value, ast.Call) and u(st.value.func) == name
+def method_effects(name, R, cls_methods=None):
+    m = cls_methods or R.methods
+    if name not in m:
+        raise Unsupported('method ' + name)
+    return effects(normalise(m[name], m, callbacks=(R.ping_cb,)), R)
 
 
-def contains_call(node, name):
-    return any(isinstance(n, ast.Call) and u(n.func) == name for n in ast.walk(node))
+# ---- path facts about the wire sends of Stream
 
-
-def send_site(fn, h2call, reset):
-    """(number of statements calling h2call, number of those after which -- in the same statement
-    list, or in the `else:` of the `try:` they end, with only straight-line non-awaiting statements in
-    between -- the reset hook is called).  Every frame handed to h2 must be followed by the hook."""
-    calls = followed = 0
-
-    def after_ok(rest):
-        for st in rest:
-            if is_call_stmt(st, reset):
-                return True
-            if isinstance(st, CONTROL) or any(isinstance(n, (ast.Await, ast.Yield)) for n in ast.walk(st)) \
-                    or contains_call(st, h2call):
-                return False
+def must_reach(stmts, tail, h2calls, reset):
+    """on EVERY path through stmts (then tail) the reset hook is called before any await, return, raise,
+    loop edge or further h2 send"""
+    for i, st in enumerate(stmts):
+        rest = stmts[i + 1:]
+        if isinstance(st, ast.Expr) and isinstance(st.value, ast.Call) and u(st.value.func) == reset:
+            return True
+        if has_await(st) or any(isinstance(n, ast.Call) and u(n.func) in h2calls for n in ast.walk(st)):
+            return False
+        if isinstance(st, (ast.Return, ast.Raise, ast.Break, ast.Continue)):
+            return False
+        if isinstance(st, ast.If):
+            return must_reach(st.body + rest, tail, h2calls, reset) and \
+                must_reach(st.orelse + rest, tail, h2calls, reset)
+        if isinstance(st, (ast.With,)):
+            return must_reach(st.body + rest, tail, h2calls, reset)
+        if isinstance(st, ast.Try):
+            if st.handlers and any(True for _ in st.handlers):
+                # an exception between send and hook would skip the hook: only accept try blocks that
+                # are followed on every path
+                return must_reach(st.body + st.orelse + st.finalbody + rest, tail, h2calls, reset)
+            return must_reach(st.body + st.orelse + st.finalbody + rest, tail, h2calls, reset)
+        if isinstance(st, (ast.While, ast.For, ast.AsyncFor)):
+            return False
+    if tail is None:
         return False
+    return must_reach(tail[0], tail[1], h2calls, reset)
 
-    def walk_block(stmts, tail):
-        nonlocal calls, followed
+
+def send_site(body, h2call, reset, h2calls):
+    calls = ok = 0
+
+    def walk(stmts, tail):
+        nonlocal calls, ok
         for i, st in enumerate(stmts):
-            rest = stmts[i + 1:] + tail
-            if isinstance(st, ast.Expr) and contains_call(st, h2call):
-                if not is_call_stmt(st, h2call):
-                    raise Unsupported('h2 call inside an expression: ' + u(st))
+            rest = stmts[i + 1:]
+            here = (rest, tail)
+            if isinstance(st, ast.Expr) and any(isinstance(n, ast.Call) and u(n.func) == h2call
+                                                for n in ast.walk(st)):
+                if not (isinstance(st.value, ast.Call) and u(st.value.func) == h2call):
+                    raise Unsupported('h2 send inside an expression: ' + u(st)[:80])
                 calls += 1
-                if after_ok(rest):
-                    followed += 1
+                if must_reach(rest, tail, h2calls, reset):
+                    ok += 1
             elif isinstance(st, ast.Try):
-                walk_block(st.body, st.orelse)          # else: runs right after the body
+                walk(st.body, (st.orelse + st.finalbody + rest, tail))     # else: runs right after the body
                 for h in st.handlers:
-                    walk_block(h.body, [])
-                walk_block(st.orelse, [])
-                walk_block(st.finalbody, [])
-            elif isinstance(st, (ast.If, ast.While, ast.For, ast.AsyncFor)):
-                walk_block(st.body, [])
-                walk_block(st.orelse, [])
+                    walk(h.body, (st.finalbody + rest, tail))
+                walk(st.orelse, (st.finalbody + rest, tail))
+                walk(st.finalbody, here)
+            elif isinstance(st, ast.If):
+                walk(st.body, here)
+                walk(st.orelse, here)
+            elif isinstance(st, (ast.While, ast.For, ast.AsyncFor)):
+                walk(st.body, None)             # the end of a loop body goes round: nothing follows
+                walk(st.orelse, here)
             elif isinstance(st, (ast.With, ast.AsyncWith)):
-                walk_block(st.body, [])
-            elif contains_call(st, h2call):
-                raise Unsupported('h2 call in an unexpected statement: ' + u(st)[:80])
-    walk_block(fn.body, [])
-    return calls, followed
+                walk(st.body, here)
+            elif any(isinstance(n, ast.Call) and u(n.func) == h2call for n in ast.walk(st)):
+                raise Unsupported('h2 send in an unexpected statement: ' + u(st)[:80])
+    walk(body, None)
+    return calls, ok
 
 
-WATCHED = ['ping_count_in_sequence', 'last_ping_sent', '_ping_handle', '_close_by_ping_handler']
+def stream_facts(tree, add):
+    cls = class_node(tree, 'Stream')
+    r = init_roles(cls, ['CONN', 'H2', 'TRANSPORT'])
+    m = methods_of(cls)
+    h2d, h2h = 'self.%s.send_data' % r['H2'], 'self.%s.send_headers' % r['H2']
+    hook = {'data': 'self.%s.data_send_process' % r['CONN'], 'headers': 'self.%s.headers_send_process' % r['CONN']}
+    rows, total = [], {h2d: 0, h2h: 0}
+    for fname, h2call, hk in (('send_data', h2d, 'data'), ('send_headers', h2h, 'headers'),
+                              ('send_request', h2h, 'headers')):
+        if fname not in m:
+            raise Unsupported('Stream.' + fname)
+        body = normalise(m[fname], m)
+        c, ok = send_site(body, h2call, hook[hk], (h2d, h2h))
+        total[h2call] += c
+        rows.append('(%s, %s, %d, %d)' % (zs('Stream.' + fname), zs(hook[hk].split('.')[-1]), c, ok))
+    # no other place of the class hands DATA / HEADERS to h2 (helpers are inlined above, so count the
+    # call sites in methods that are not private helpers of the three)
+    for name, fn in m.items():
+        if name in ('send_data', 'send_headers', 'send_request') or is_private(name):
+            continue
+        for n in ast.walk(fn):
+            if isinstance(n, ast.Call) and u(n.func) in (h2d, h2h):
+                raise Unsupported('Stream.%s hands a frame to h2 as well' % name)
+    return rows
 
+
+# ---- writers of the keepalive variables
 
 def write_kind(value, aug=None):
-    """classify what is written to a keepalive variable"""
     if aug is not None:
         if isinstance(aug, ast.Add) and u(value) == '1':
             return 'inc'
@@ -491,27 +849,22 @@ def write_kind(value, aug=None):
         return 'none'
     if s == 'time.monotonic()':
         return 'now'
-    if isinstance(value, ast.Call) and u(value.func) == CALL_LATER:
+    if is_call_later(StripCast().visit(copy.deepcopy(value))):
         return 'arm'
     raise Unsupported('value written to a keepalive variable: ' + s)
 
 
-def writers(repo):
-    """every statement in grpclib/ that assigns to (or deletes) one of the keepalive variables, on any
-    object: {attr: [(module:Class.function, kind)]}.  Class-level declarations of Connection are the
-    initial values (checked separately); setattr/__dict__ tricks with these names are refused."""
-    import os
-    out = {a: [] for a in WATCHED}
-    root = os.path.join(repo, 'grpclib')
-    files = []
-    for d, _, fns in os.walk(root):
-        for fn in fns:
-            if fn.endswith('.py'):
-                files.append(os.path.join(d, fn))
-    for path in sorted(files):
+def writers(repo, R):
+    """every statement in grpclib/ that assigns to one of the four keepalive variables, on any object.
+    A write inside a private helper of Connection (a method that is CALLED through self) counts for the
+    methods calling it; the ping callback is named by its role."""
+    watched = {'ping_count_in_sequence': 'ping_count_in_sequence', 'last_ping_sent': 'last_ping_sent',
+               R.ping_timer: 'PING_TIMER', R.close_timer: 'CLOSE_TIMER'}
+    raw = []          # (attr role, module, class, function, kind)
+    for path in sorted(glob.glob(os.path.join(repo, 'grpclib', '**', '*.py'), recursive=True)):
         rel = os.path.relpath(path, repo)
         src = open(path).read()
-        if not any(a in src for a in WATCHED):
+        if not any(a in src for a in watched):
             continue
         tree = ast.parse(src, rel)
         mod = rel[len('grpclib/'):-3].replace('/', '.')
@@ -530,24 +883,121 @@ def writers(repo):
                     targets = [(ch.target, ch.value, None)]
                 elif isinstance(ch, ast.Delete):
                     for t in ch.targets:
-                        if isinstance(t, ast.Attribute) and t.attr in WATCHED:
+                        if isinstance(t, ast.Attribute) and t.attr in watched:
                             raise Unsupported('del of ' + t.attr)
                 for t, v, aug in targets:
                     elts = t.elts if isinstance(t, (ast.Tuple, ast.List)) else [t]
                     for e in elts:
-                        if isinstance(e, ast.Attribute) and e.attr in WATCHED:
+                        if isinstance(e, ast.Attribute) and e.attr in watched:
                             if len(elts) > 1:
                                 raise Unsupported('tuple assignment to ' + e.attr)
-                            out[e.attr].append(('%s:%s' % (mod, '.'.join(scope)), write_kind(v, aug)))
-                        elif isinstance(e, ast.Name) and e.id in WATCHED and \
-                                not (scope == ['Connection'] and isinstance(ch, ast.AnnAssign)):
+                            raw.append((watched[e.attr], mod, scope[0] if len(scope) > 1 else '',
+                                        scope[-1] if scope else '', write_kind(v, aug)))
+                        elif isinstance(e, ast.Name) and e.id in watched and len(scope) != 1:
                             raise Unsupported('%s assigned as a plain name in %s' % (e.id, scope))
                 if isinstance(ch, ast.Call) and u(ch.func) in ('setattr', 'delattr', 'object.__setattr__'):
-                    if any(isinstance(a, ast.Constant) and a.value in WATCHED for a in ch.args):
+                    if any(isinstance(a, ast.Constant) and a.value in watched for a in ch.args):
                         raise Unsupported('setattr on a keepalive variable')
                 visit(ch, scope)
         visit(tree, [])
-    return out
+    # fold private helpers of Connection into their callers
+    callers = {}
+    for name, fn in R.methods.items():
+        for n in ast.walk(fn):
+            cn, call = self_call(n) if isinstance(n, (ast.Call, ast.Await)) else (None, None)
+            if cn and is_private(cn) and cn in R.methods and cn != R.ping_cb:
+                callers.setdefault(cn, set()).add(name)
+
+    def entry_points(fn, seen=()):
+        if fn in seen:
+            raise Unsupported('recursive helpers')
+        if fn in callers:
+            out = set()
+            for c in callers[fn]:
+                out |= entry_points(c, seen + (fn,))
+            return out
+        return {fn}
+    table = {}
+    for role, mod, cls, fn, kind in raw:
+        fns = entry_points(fn) if (mod, cls) == ('protocol', 'Connection') else {fn}
+        for f in fns:
+            f = 'PING_CALLBACK' if (mod, cls, f) == ('protocol', 'Connection', R.ping_cb) else f
+            table.setdefault(role, set()).add(('%s:%s.%s' % (mod, cls, f), kind))
+    return [(role, sorted(table.get(role, ()))) for role in
+            ('ping_count_in_sequence', 'last_ping_sent', 'PING_TIMER', 'CLOSE_TIMER')]
+
+
+def initial_values(cls, R):
+    want = {'last_ping_sent': 'None', 'ping_count_in_sequence': '0', R.ping_timer: 'None',
+            R.close_timer: 'None'}
+    got = {}
+    for st in cls.body:
+        if isinstance(st, ast.AnnAssign) and isinstance(st.target, ast.Name) and st.value is not None:
+            got[st.target.id] = u(st.value)
+        elif isinstance(st, ast.Assign) and len(st.targets) == 1 and isinstance(st.targets[0], ast.Name):
+            got[st.targets[0].id] = u(st.value)
+    init = R.methods.get('__init__')
+    for st in ast.walk(init):
+        if isinstance(st, ast.Assign) and len(st.targets) == 1 and isinstance(st.targets[0], ast.Attribute) \
+                and u(st.targets[0].value) == 'self':
+            got[st.targets[0].attr] = u(st.value)
+    for k, v in want.items():
+        if got.get(k) != v:
+            raise Unsupported('initial value of Connection.%s is %r' % (k, got.get(k)))
+
+
+def protocol_facts(repo, add):
+    tree = parse(repo, 'grpclib/protocol.py')
+    ccls = class_node(tree, 'Connection')
+    R = connection_roles(ccls)
+    initial_values(ccls, R)
+    add('(* grpclib/protocol.py, normalised (see the header of tools/facts_C17.py); attributes by role *)')
+    add('Inductive kexpr := ECfg (name : list Z) | EAttr (name : list Z) | ENow | EAnyOpen | ENone')
+    add('  | EConst (n : Z) | ESub (a b : kexpr) | EAdd (a b : kexpr).')
+    add('Inductive kcond := KConst (b : bool) | KNot (k : kcond) | KAnd (a b : kcond) | KOr (a b : kcond)')
+    add('  | KIte (c a b : kcond) | KCmp (op : cmpop) (a b : kexpr) | KIsNotNone (e : kexpr)')
+    add('  | KTruth (e : kexpr) | KNeedPing | KOpaque.')
+    add('Inductive kstmt := SSendPing | SFlush | SCloseTransport | SCancel (timer : list Z)')
+    add('  | SCall (meth : list Z) | SInc (attr : list Z) | SSet (attr : list Z) (e : kexpr)')
+    add('  | SArm (timer delay_cfg callback : list Z) | SIf (k : kcond) (body : list kstmt).')
+    add('(* the need-ping predicate of the ping callback, as one condition *)')
+    add('Definition need_send_ping_src : kcond :=\n  %s.' % bool_function(R.methods[R.need], R))
+    for coq, name in (('initialize', 'initialize'), ('ping', R.ping_cb), ('close', 'close'),
+                      ('ping_ack_process', 'ping_ack_process'),
+                      ('headers_send_process', 'headers_send_process'),
+                      ('data_send_process', 'data_send_process')):
+        add('Definition src_%s : list kstmt := [\n  %s\n].' % (coq, ';\n  '.join(method_effects(name, R))))
+    # PingAckReceived is dispatched to a handler that calls ping_ack_process
+    ep = class_node(tree, 'EventsProcessor')
+    em = methods_of(ep)
+    handler = None
+    for n in ast.walk(em.get('__init__', ep)):
+        if isinstance(n, ast.Dict):
+            for k, v in zip(n.keys, n.values):
+                if k is not None and u(k).split('.')[-1] == 'PingAckReceived' and u(v).startswith('self.'):
+                    handler = u(v)[5:]
+    if handler is None or handler not in em:
+        raise Unsupported('PingAckReceived is not dispatched to a method of EventsProcessor')
+    add('Definition src_ping_ack_handler : list kstmt := [\n  %s\n].' % ';\n  '.join(
+        effects(normalise(em[handler], em), R)))
+    # connection_made starts keepalive
+    hp = methods_of(class_node(tree, 'H2Protocol'))
+    if 'connection_made' not in hp or not any(
+            isinstance(n, ast.Call) and isinstance(n.func, ast.Attribute) and n.func.attr == 'initialize'
+            for st in normalise(hp['connection_made'], hp) for n in ast.walk(st)):
+        raise Unsupported('H2Protocol.connection_made does not call initialize()')
+    add('')
+    add('(* every place where a DATA / HEADERS frame is handed to h2: (method, reset hook, number of h2 sends, '
+        'number of them after which the hook is reached on EVERY path with no await / return / loop edge / '
+        'further send in between) *)')
+    add('Definition send_sites : list (list Z * list Z * Z * Z) := [%s].' % '; '.join(stream_facts(tree, add)))
+    add('')
+    add('(* EVERY assignment in grpclib/ to one of the keepalive variables (any object, any module; private '
+        'helpers folded into the methods calling them): (variable, [(module:Class.method, what is written)]) *)')
+    w = writers(repo, R)
+    add('Definition keepalive_writers : list (list Z * list (list Z * list Z)) := [\n%s\n].' % ';\n'.join(
+        '  (%s, [%s])' % (zs(a), '; '.join('(%s, %s)' % (zs(f), zs(k)) for f, k in ws)) for a, ws in w))
+    add('')
 
 
 def generate(repo):
@@ -562,36 +1012,9 @@ def generate(repo):
     add('')
     config_facts(repo, add)
     protocol_facts(repo, add)
-    ptree = parse(repo, 'grpclib/protocol.py')
-    rows, total = [], {}
-    for fname, h2call, reset in SEND_SITES:
-        c, f = send_site(func_node(ptree, fname, 'Stream'), h2call, reset)
-        total[h2call] = total.get(h2call, 0) + c
-        rows.append('(%s, %s, %d, %d)' % (zs('Stream.' + fname), zs(reset.split('.')[-1]), c, f))
-    import glob
-    import os
-    allsrc = ''.join(open(f).read() for f in sorted(glob.glob(os.path.join(repo, 'grpclib', '**', '*.py'),
-                                                           recursive=True)))
-    for h2call, n in total.items():
-        meth = h2call.split('.')[-1]
-        # any `<something>_connection.send_data(` / `.send_headers(` in grpclib (h2 objects are named
-        # _h2_connection / _connection) must be one of the calls counted above
-        if allsrc.count('_connection.%s(' % meth) != n:
-            raise Unsupported('%s is called outside the three Stream methods' % h2call)
-    add('(* every place where a DATA / HEADERS frame is handed to h2: (function, reset hook, number of '
-        'h2 calls, number of them directly followed by the hook -- per FRAME, not per message) *)')
-    add('Definition send_sites : list (list Z * list Z * Z * Z) := [%s].' % '; '.join(rows))
-    add('')
-    add('(* EVERY assignment in grpclib/ to one of the keepalive variables (any object, any module): '
-        '(variable, [(module:Class.function, what is written)]) *)')
-    w = writers(repo)
-    add('Definition keepalive_writers : list (list Z * list (list Z * list Z)) := [\n%s\n].' % ';\n'.join(
-        '  (%s, [%s])' % (zs(a), '; '.join('(%s, %s)' % (zs(f), zs(k)) for f, k in w[a])) for a in WATCHED))
-    add('')
     return '\n'.join(L) + '\n'
 
 
 if __name__ == '__main__':
-    import os
     import sys
     sys.stdout.write(generate(os.environ.get('VERIF_REPO', '/repo')))
